@@ -139,11 +139,13 @@ def _apply(obj, act, args, n, fresh_other, handed):
         handed.append(names)
         return obj.take_seqs(names, negate=True) if neg else obj.take_seqs(names)
     if act == "OmitGapPos":
-        num, den, ml = args
+        num, den, hair, ml = args
         kw = {} if ml == 1 else {"motif_length": ml}
-        if (num, den) == (999999, 1000000):  # the documented default 1 - eps
+        if (num, den, hair) == (999999, 1000000, "exact"):  # the documented default 1 - eps: argument left out
             return obj.omit_gap_pos(**kw)
-        return obj.omit_gap_pos(allowed_gap_frac=num / den, **kw)
+        # a hair below / above num/den: 1e-12 is far above float round-off and far below 1/cells
+        allowed = num / den + {"exact": 0.0, "below": -1e-12, "above": 1e-12}[hair]
+        return obj.omit_gap_pos(allowed_gap_frac=allowed, **kw)
     if act == "NoDegenerates":
         ml, ag = args
         return obj.no_degenerates(motif_length=ml, allow_gap=ag)
